@@ -12,17 +12,17 @@ static __thread int my_id;
 static char arena[MAXT][ARENA] __attribute__((aligned(64))); static size_t apos[MAXT];
 #include "e3_scripts.h"
 static pthread_barrier_t bar; static int ITER = 300, NTHREADS = 8;
-static uint64_t first_tr[3][MAXT]; static int mismatch;
+static uint64_t first_tr[4][MAXT]; static int mismatch;
 static void *worker(void *arg) {
     my_id = (int)(intptr_t)arg;
     for (int it = 0; it < ITER; it++) {
         pthread_barrier_wait(&bar);
         apos[my_id] = 0; tr[my_id] = 0;
         /* script ids: harness alternates; the script of thread id%NT of that harness */
-        int h = 1 + it % 3; int nt = h == 3 ? 3 : 2;
+        int h = 1 + it % 4; int nt = h == 3 ? 3 : 2;
         script_h(h, my_id % nt, my_id);
         uint64_t v = tr[my_id];
-        if (it < 3) first_tr[h - 1][my_id] = v; else if (first_tr[h - 1][my_id] != v) __atomic_store_n(&mismatch, 1, __ATOMIC_RELAXED);
+        if (it < 4) first_tr[h - 1][my_id] = v; else if (first_tr[h - 1][my_id] != v) __atomic_store_n(&mismatch, 1, __ATOMIC_RELAXED);
     }
     return NULL;
 }
